@@ -24,7 +24,7 @@ func NewSimCtx(fireAt int, kind error) *SimCtx {
 	return &SimCtx{fireAt: fireAt, kind: kind, done: make(chan struct{})}
 }
 
-func (c *SimCtx) Deadline() (time.Time, bool) { return time.Time{}, false }
+func (c *SimCtx) Deadline() (time.Time, bool)   { return time.Time{}, false }
 func (c *SimCtx) Value(interface{}) interface{} { return nil }
 
 func (c *SimCtx) Done() <-chan struct{} {
